@@ -59,6 +59,7 @@ def funcs():
         Func("f-params-16", [("a%d" % i, U8) for i in range(15)] + [("a15", U64)], tup(U8, F64), "params-16-flat-direct", tier="thorough"),
         Func("f-params-17-string", [("a%d" % i, U8) for i in range(15)] + [("s", STRING)], STRING, "params-17-indirect-string", tier="thorough"),
         Func("f-param-only", [("x", lst(U8)), ("y", U64)], None, "param-only-list-u8-u64"),
+        Func("f-string-in", [("x", STRING), ("y", option(STRING))], U32, "string-params-only"),
         Func("f-result-only", [], tup(U8, STRING), "result-only-tuple-u8-string"),
         # handles
         rt("own-exported", own(RE)), rt("own-imported", own(RI)),
@@ -72,14 +73,24 @@ def funcs():
     return fs
 
 
-def world():
+def _has_string(t):
+    from .wtypes import children
+    return t is not None and (t.kind == "string" or any(_has_string(c) for c in children(t)))
+
+
+def world(cfg=None):
     imp = [Func("eat", [("x", own(RI))], None, "-"), Func("peek", [("x", borrow(RI))], U32, "-"), Func("mk", [], own(RI), "-")]
-    return World("w", funcs(), imp_res=[RI], exp_res=[RE], imp_funcs=imp)
+    fs = funcs()
+    if cfg is not None and cfg["opts"].get("raw_strings") == "true":
+        # raw_strings: an exported function RETURNING a string does not compile (`Vec<u8>::into_bytes`; upstream TODO in
+        # tests/runtime/rust/raw-strings/test.rs), so those functions are left out of the raw_strings worlds
+        fs = [f for f in fs if not _has_string(f.result)]
+    return World("w", fs, imp_res=[RI], exp_res=[RE], imp_funcs=imp)
 
 
 # generator option matrix.  `classes`: None = every class of the tier; otherwise only the classes the option can affect
 ALT_CLASSES = ["record-u8-u16-u8-u32", "variant-f32-s64", "list-u32", "list-tuple-u8-u32", "string", "option-string",
-               "result-list-u8-u8", "params-17-flat-indirect", "own-imported", "flags-33"]
+               "string-params-only", "result-list-u8-u8", "params-17-flat-indirect", "own-imported", "flags-33"]
 
 
 def configs(tier, seed):
